@@ -686,6 +686,7 @@ func cmdC08(args []string) int {
 	outPath := fs.String("out", "cases.v", "Coq case file")
 	statsPath := fs.String("stats", "stats.json", "stats output")
 	fs.Parse(args)
+	noLongHays = *tier == "thorough" // the thorough ledgers predate the long-haystack families (DESIGN section 5)
 	t0 := time.Now()
 
 	npat, nhay, ntmpl, caseCap := 260, 12, 3, 600
